@@ -432,7 +432,7 @@ def static_property(pid, tier, seed, replay):
                             samples=samples or ["(no probes)"],
                             probe_disagreements=len(probe_fail), probes_rejected_for_another_reason=probe_notes,
                             static_rules=[dict(rule=r["rule"], offending=r["offending"], recorded_findings=r["recorded"]) for r in (rows or []) if pid in r["property"].split(",")],
-                            theorems=evidence.get("theorems", []),
+                            theorems=evidence.get("theorems", []), leanchecker=evidence.get("leanchecker"),
                             exhaustive=True,
                             timings={k: v for k, v in evidence.items() if k.endswith("_s")}),
               assumptions=["Facts.lean is regenerated from /repo/src at the start of this run",
@@ -541,7 +541,7 @@ def own_property(pid, tier, seed, replay):
                             samples=lines[:3] + lines[-3:] if lines else ["(none)"],
                             shape_count=len(shapes), path_kinds=paths, exhaustive=True,
                             static_rules=evidence.get("static_rules", []),
-                            theorems=evidence.get("theorems", []),
+                            theorems=evidence.get("theorems", []), leanchecker=evidence.get("leanchecker"),
                             timings={k: v for k, v in evidence.items() if k.endswith("_s")}),
               assumptions=["memory safety proper (no UB) is outside what the model exhibits: the harness observes drop counts and values only; run under Miri in the thorough tier when available",
                            "shapes are those enumerated by the harness (24 owned shapes up to depth 3)"],
@@ -934,7 +934,7 @@ def t1_property(pid, tier, seed, replay):
                   predicate_failures=n_direct_total,
                   known_finding_hits=known_hits,
                   distribution=dist,
-                  theorems=evidence.get("theorems", []),
+                  theorems=evidence.get("theorems", []), leanchecker=evidence.get("leanchecker"),
                   static_rules=evidence.get("static_rules", []),
                   miri=evidence.get("miri"),
                   exhaustive=True,
